@@ -108,6 +108,8 @@ fn table(tag: &str) -> Option<Vec<Slot>> {
         "start_deleverage" => vec![AccountGroupOnly, LiqRecord, Group, Signer(Risk), Sysvar],
         "end_deleverage" => vec![AccountGroupOnly, LiqRecord, Group, Signer(Risk)],
         "purge_deleverage_balance" => vec![Group, AccountGroupOnly, Signer(Risk), Bank],
+        "edit_staked_settings" => vec![Group, Signer(GroupAdmin), BankPda],
+        "propagate_staked_settings" => vec![Group, BankPda, Bank],
         _ => return None,
     })
 }
@@ -132,6 +134,7 @@ impl Default for C08 {
             "wrong_owner_clone_rejected",
             "duplicate_account_mutation_rejected",
             "unsigned_rejected",
+            "frozen_column_swept",
             "consistent_foreign_bank_mutation",
             "foreign_group_with_its_role_holder_mutation",
         ]);
@@ -460,6 +463,22 @@ impl C08 {
         extra: Option<(Pubkey, Account)>,
         more: &[(usize, Pubkey, bool)],
     ) -> (bool, Option<ErrSource>, u32) {
+        self.run_mutation_on(s, s.pre, ix_i, slot_i, new_key, signer, extra, more)
+    }
+
+    /// As `run_mutation_multi`, executed from an arbitrary start state (a fork of `s.pre`).
+    #[allow(clippy::too_many_arguments)]
+    fn run_mutation_on(
+        &mut self,
+        s: &Step,
+        base: &Store,
+        ix_i: usize,
+        slot_i: usize,
+        new_key: Pubkey,
+        signer: Option<bool>,
+        extra: Option<(Pubkey, Account)>,
+        more: &[(usize, Pubkey, bool)],
+    ) -> (bool, Option<ErrSource>, u32) {
         let mut tx: Tx = s.tx.clone();
         tx.fail_cpi_at = None;
         tx.actor = "attacker";
@@ -492,12 +511,12 @@ impl C08 {
         let store_owned;
         let store: &Store = match extra {
             Some((k, a)) => {
-                let mut st = s.pre.clone();
+                let mut st = base.clone();
                 st.put(k, a);
                 store_owned = st;
                 &store_owned
             }
-            None => s.pre,
+            None => base,
         };
         let (o, _) = s.exec.execute(store, s.clock, &tx);
         self.cov.probe("mutations_executed");
@@ -639,6 +658,42 @@ impl Monitor for C08 {
                                 ));
                             } else if kind == "clone_wrong_owner" {
                                 self.cov.probe("wrong_owner_clone_rejected");
+                            }
+                        }
+                    }
+                }
+            }
+            // the frozen-account column of the role matrix: the same instruction, every signer
+            // identity, but with the account frozen first (real set_freeze by the group admin on
+            // a fork).  Only the group admin of the account's group may then be accepted.
+            if ix_i == 0 || s.tx.ixs.iter().filter(|x| x.program_id == marginfi_id()).count() == 1 {
+                let user_slot = slots.iter().position(|x| matches!(x, Slot::Signer(Role::User { .. })));
+                let acc_slot = slots.iter().position(|x| *x == Slot::Account);
+                if let (Some(si), Some(ai)) = (user_slot, acc_slot) {
+                    let acc_key = ix.accounts[ai].pubkey;
+                    if let Some(acc) = model::account_of(s.pre, &acc_key) {
+                        if let Some(g) = model::group_of(s.pre, &acc.group) {
+                            if acc.account_flags & (ACCOUNT_FROZEN | ACCOUNT_IN_RECEIVERSHIP | ACCOUNT_IN_FLASHLOAN) == 0 {
+                                let fr = Tx::one("c08_freeze", crate::ix::set_freeze(acc.group, acc_key, g.admin, true));
+                                let (fo, fpost) = s.exec.execute(s.pre, s.clock, &fr);
+                                if let (true, Some(frozen)) = (fo.ok(), fpost) {
+                                    self.cov.probe("frozen_column_swept");
+                                    if let Slot::Signer(role) = slots[si] {
+                                        for (j, label) in ids.iter() {
+                                            let extra = if frozen.get(j).is_none() { Some((*j, Account::system(1_000_000_000))) } else { None };
+                                            let (ok, _, _) = self.run_mutation_on(s, &frozen, ix_i, si, *j, Some(true), extra, &[]);
+                                            self.cov.eval(format!("{}|frozen|signer:{}|{}", ix.tag, label, ok as u8));
+                                            if ok {
+                                                if entitled(role, j, ix, &frozen) {
+                                                    self.cov.probe("frozen_account_admin_path_accepted");
+                                                } else {
+                                                    out.push(viol("C08", "accepted_with_unentitled_signer", ix.tag,
+                                                        format!("slot {si}: {label} {j} on the FROZEN account {acc_key} (only the group admin {} is entitled)", g.admin), idx));
+                                                }
+                                            }
+                                        }
+                                    }
+                                }
                             }
                         }
                     }
